@@ -82,7 +82,7 @@ def gen_daqmx_spec(rng, max_segments=4, max_channels=5, wide_p=0.06, wide_digita
     stated = set()
     for k in range(nseg):
         e = endian_mode if endian_mode != 'mixed' else rng.choice('<>')
-        seg = {'endian': e, 'layout': 'daqmx', 'pad': 0}
+        seg = {'endian': e, 'layout': 'daqmx', 'pad': 0, 'toc_interleaved': rng.random() < 0.5}
         meta = k == 0 or rng.random() < 0.7
         seg['meta'] = meta
         if meta:
